@@ -44,6 +44,10 @@ func checkC17(c *Check) {
 	ruleNestedRearm(c, p, "R17.11")
 	c.RuleDoc["R17.11"] = "struct-valued fields re-initialised through their own method are re-initialised completely"
 	ruleInitTransition(c, p, "R17.10")
+	ruleCloseWAlwaysCloses(c, p, "R17.19")
+	c.RuleDoc["R17.19"] = "= R08.15: Close waits for the block pipeline on every path (legacy frames included): data accepted before Close is in the sink when Close returns"
+	ruleTerminalStatesStay(c, p, "R17.18")
+	c.RuleDoc["R17.18"] = "terminal states are left only by Reset: no transition is registered or performed while the state word may be closedState (or errorState for deferred transitions)"
 	c.RuleDoc["R17.10"] = "the first-use initialisation is followed by the state transition on every path"
 	c.RuleDoc["R17.8"] = "block-sized buffers are re-fetched from the current block size at frame start"
 	c.RuleDoc["R17.9"] = "per-stream fields written by the data path are re-initialised by init or Reset"
